@@ -1768,6 +1768,17 @@ func c16Table() []*c16Case {
 			}
 		}
 	}
+	// Many failing files in one run: the exit status is non-zero however
+	// many there are (a status that counts them wraps around at 256).
+	for _, nBad := range []int{255, 256, 257, 512} {
+		cs := &c16Case{Mode: "kinds", Via: "p", Patches: threePatches(), Args: []string{"tree"}}
+		cs.Files = append(cs.Files, good(0))
+		for i := 0; i < nBad; i++ {
+			cs.Files = append(cs.Files, c16File{Name: fmt.Sprintf("bad/u%03d.go", i), Role: "unparseable", Src: c16Unparseable[i%2*2]})
+		}
+		cs.Files = append(cs.Files, good(2))
+		out = append(out, cs)
+	}
 	allGood := func() []c16File { return []c16File{good(0), good(1), good(2)} }
 	// A missing path at each argument position.
 	for _, m := range []string{"tree/gone.go", "nowhere", "./tree/none/...", "tree/gone[1].go", "tree/what?.go"} {
